@@ -256,8 +256,15 @@ Definition is_gapfill (m : minput) : bool := match mi_gapfill m with FVal true =
 
 (* codes: 401 gap in normal operation not answered by exactly the right request / message not kept;
    402 a request while recovering that is not the next chunk at the expected number; 403 a kept message that is next in
-   sequence was not delivered; 404 still recovering although the expected number is past the range *)
-Fixpoint c04_scan (c : cfg) (i : nat) (prev : obs) (tr : list (event * obs)) : list failure :=
+   sequence was not delivered; 404 still recovering although the expected number is past the range; 405 a kept application
+   message was dropped: the expected number passed it without a hand-over *)
+Definition stash_keys (s : sshape) : list Z := match sh_unwrap s with ShResend true keys _ _ => keys | _ => [] end.
+Definition kept_lookup (k : Z) (kept : list (Z * minput)) : option minput :=
+  match find (fun e => fst e =? k) kept with Some (_, m) => Some m | None => None end.
+Definition delivered (k : Z) (l : list cb) : bool :=
+  existsb (fun x => match x with CbFromApp (FVal n) _ _ _ => n =? k | _ => false end) l.
+
+Fixpoint c04_scan (c : cfg) (i : nat) (kept : list (Z * minput)) (prev : obs) (tr : list (event * obs)) : list failure :=
   match tr with
   | [] => []
   | (e, o) :: r =>
@@ -304,9 +311,38 @@ Fixpoint c04_scan (c : cfg) (i : nat) (prev : obs) (tr : list (event * obs)) : l
           | ShResend false _ _ re => if re <? ob_tgt o then [(i, 404)] else []
           | _ => []
           end)
-      ++ c04_scan c (S i) o r
+      (* 405: a kept application message whose number was passed in this step was handed to the application *)
+      ++ (if sh_logged_on (ob_st o) || match ob_st o with ShLogout => true | _ => false end then
+            flat_map (fun k =>
+              (* not when the peer itself skipped the number with a SequenceReset beyond it *)
+              let jumped := match e with
+                            | EIncoming m => beq_bytes (mi_type m) T_SEQRESET && match mi_newseq m with FVal q => k <? q | _ => false end
+                            | _ => true
+                            end in
+              if negb jumped && (ob_tgt prev <=? k) && (k <? ob_tgt o) && negb (existsb (Z.eqb k) (stash_keys (ob_st o))) then
+                match kept_lookup k kept with
+                | Some m => if negb (is_admin (mi_type m)) && msg_passes_header c k m
+                               && match mi_valid m with VAccept => true | _ => false end
+                               && negb (delivered k (ob_cbs o)) && negb (has_reset (ob_cbs o))
+                            then [(i, 405)] else []
+                | None => []
+                end
+              else []) (stash_keys (ob_st prev))
+          else [])
+      ++ c04_scan c (S i)
+           (match e with
+            | EIncoming m => match mi_seq m with
+                             | FVal n => (* kept (or replacing what was kept) under n: a gated message above the expected number *)
+                                         if existsb (Z.eqb n) (stash_keys (ob_st o)) && (ob_tgt prev <? n) && gated_type (mi_type m)
+                                         then (n, m) :: kept else kept
+                             | _ => kept
+                             end
+            | EDeliver => (* a buffered frame was processed: what is kept under the surviving keys is no longer known *)
+                          filter (fun e0 => negb (existsb (Z.eqb (fst e0)) (stash_keys (ob_st o)))) kept
+            | _ => kept
+            end) o r
   end.
-Definition c04_check (c : cfg) (tr : list (event * obs)) : list failure := c04_scan c O (init_obs c) tr.
+Definition c04_check (c : cfg) (tr : list (event * obs)) : list failure := c04_scan c O [] (init_obs c) tr.
 
 (* ---------------------------------------------------------------------------------------------- *)
 (* C07: continuity and agreed resets. *)
